@@ -1,5 +1,6 @@
 ---- MODULE MC_t_shapes ----
 EXTENDS MCOFWire
 TheCases == Payloads(0..40 \cup {63, 64, 65, 127, 128, 129, 255, 256, 257, 1023, 1024, 1498, 1499, 1500}) \cup ListsOf(2) \cup Counts(0..6)
+TheRCases == {}
 TheAround == AroundOne
 ====
